@@ -219,6 +219,9 @@ def run_guarded(mod, case, allowance=30):
     """Run one case; harness exceptions are kept apart from violations."""
     if case.get('forked') and not _IN_FORK[0]:
         return _run_in_fork(mod, case, allowance)
+    # (the tree under test must be the first petl this process imports)
+    from .loader import load_petl
+    load_petl()
     # the allowance is processor time of this process (ITIMER_PROF), not wall
     # clock: a loaded machine must not turn a slow case into a verdict.  The
     # wall-clock backstop is ten times as long (a case blocked without using
